@@ -404,6 +404,65 @@ def _wholesale(fi, call):
     return None
 
 
+def _canon_guards(facts, node):
+    canon = set()
+    for t, pol in facts.conds_at(node):
+        t = t.strip()
+        while t.startswith("not "):
+            t = t[4:].strip()
+            if t.startswith("(") and t.endswith(")"):
+                t = t[1:-1].strip()
+            pol = not pol
+        canon.add("%s is %s" % (t, pol))
+    return canon
+
+
+def moved_entry(r, rule, kk, current_keys, p=None):
+    """A whole-region replacement that moved to another function of the same module (helper extracted / inlined): the same
+    replacement, and the tabled site it matches is gone from the tree.  Its guards must be the tabled guards, or a subset of
+    them when every call site of the new function is itself dominated by the guards that are missing (they stayed in the
+    callers).  Returns that entry or None."""
+    if ":set_tokens(" not in kk or " under [" not in kk:
+        return None
+    fkey, rest = kk.split(":set_tokens(", 1)
+    label, gtxt = rest.rsplit(" under [", 1)
+    guards = set(g for g in gtxt[:-1].split("; ") if g)
+    module = fkey.split(":")[0]
+    for (erule, ekey), ent in r._table.items():
+        if erule != rule or ekey in current_keys or ":set_tokens(" not in ekey or " under [" not in ekey:
+            continue
+        efk, erest = ekey.split(":set_tokens(", 1)
+        elabel, egtxt = erest.rsplit(" under [", 1)
+        eguards = set(g for g in egtxt[:-1].split("; ") if g)
+        if efk.split(":")[0] != module or elabel != label:
+            continue
+        if eguards == guards:
+            r._table_hits.add((erule, ekey))
+            return ent
+        if guards < eguards and p is not None:
+            missing = eguards - guards
+            fi = p.functions.get(fkey)
+            if fi is None or fi.cls is not None:
+                continue
+            ok = True
+            n_calls = 0
+            for g in p.functions.values():
+                if g.module is not fi.module:
+                    continue
+                f = None
+                for c in walk_function(g.node):
+                    if isinstance(c, ast.Call) and isinstance(c.func, ast.Name) and c.func.id == fi.name:
+                        n_calls += 1
+                        if f is None:
+                            f = Facts(g.node)
+                        if not missing <= _canon_guards(f, c):
+                            ok = False
+            if ok and n_calls:
+                r._table_hits.add((erule, ekey))
+                return ent
+    return None
+
+
 def wholesale_sites(p, reach):
     """Every set_tokens(<list not derived from the whole region>) in rule code reachable from a fix.
     Yields (fi, call node, key); the key contains the function, the replacement and the conditions that dominate
@@ -584,7 +643,9 @@ def run(ctx):
             msg = "%s %s (%s) and is reachable from the fix of %s: comments may be deleted only by the two documented comment-removing fixes" % (fi.key, what, label, "; ".join(fam_label(f) for f in bad[:3]))
         r.fail("C02.drop", kk, msg, fi.loc(n))
     n_whole = 0
-    for fi, n, kk, guards in wholesale_sites(p, reach):
+    wsites = wholesale_sites(p, reach)
+    wkeys = {k for _, _, k, _ in wsites}
+    for fi, n, kk, guards in wsites:
         n_whole += 1
         seen.add(kk)
         if fi.key in DOCUMENTED_REMOVERS:
@@ -597,7 +658,7 @@ def run(ctx):
         if any(g.endswith(" is False") and "comment" in g.lower() and ("lTokens" in g or "get_tokens" in g) for g in guards):
             r.ok("C02.drop", kk, "the replacement runs only when the region holds no comment (`%s`)" % [g for g in guards if "comment" in g.lower()][0][:70])
             continue
-        ent = r.tabled("C02.drop", kk)
+        ent = r.tabled("C02.drop", kk) or moved_entry(r, "C02.drop", kk, wkeys, p)
         if ent:
             if ent.get("requires_family_guard"):
                 bad = [fam for fam in fs if not fam_consult(fam)]
